@@ -106,7 +106,9 @@ impl Prop for C01 {
         verif::set_sync_config(None);
         verif::set_clock(None);
         if let Err(e) = r {
-            if e.starts_with("populate:") {
+            if e.starts_with("wire:") || e.contains("session: ") {
+                o.fail("C01/session-failed", e);
+            } else if e.starts_with("populate:") {
                 // the ingress path disagrees with the model: that is C02's finding, do not double count
                 o.class("skipped/ingress-disagrees-with-model");
             } else {
